@@ -194,7 +194,7 @@ def find_skip_test(prog: Program, fn: Func):
 
 
 # ------------------------------------------------------------------------------------------------ the check
-LATER_RULES = ' Later rules: R20.1/R20.2 identify the skip test by interpreting it on probe files (sa/strexpr.py) and require all 49 skip_file probes to be recognised; R20.5 also decides what a line is (tokenizer lines); (R20.8) the sink gets the text as returned. (R20.10) = C10 R10.0, the overlap predicate (insertions inside an annotated line); (R20.11) = C03 R3.9, a widened deletion does not cross a line break; (R20.9) a fast path of has_ignore_comment that answers no before the lines are examined tests for a text every match of the pattern contains (mandatory factor of the regex AST).'
+LATER_RULES = ' Later rules: R20.1/R20.2 identify the skip test by interpreting it on probe files (sa/strexpr.py) and require all 49 skip_file probes to be recognised; R20.5 also decides what a line is (tokenizer lines); (R20.8) the sink gets the text as returned. (R20.10) = C10 R10.0, the overlap predicate (insertions inside an annotated line); (R20.11) = C03 R3.9, a widened deletion does not cross a line break; (R20.12) no text is rebuilt from terminator-less lines with a line break chosen by the rule; (R20.9) a fast path of has_ignore_comment that answers no before the lines are examined tests for a text every match of the pattern contains (mandatory factor of the regex AST).'
 
 
 def check(prog: Program, tier: str) -> Result:
@@ -236,6 +236,7 @@ def check(prog: Program, tier: str) -> Result:
     res.adopt(c03_result, {"R3.9"}, "R20.11",
               "a deletion that is widened by a regex match behind it must not run over a line break: the line it would reach was never tested for an ignore comment")
     _r20_8(prog, res)
+    _r20_12(prog, res)
     res.floors.update({"R20.8": 1, "R20.1": 10, "R20.2": 1, "R20.3": 6, "R20.5": 3, "R20.6": 1, "R20.7": 1, "R20.10": 1, "R20.11": 1})
     return res
 
@@ -442,6 +443,34 @@ def _r20_8(prog: Program, res: Result) -> None:
                 res.ok("R20.8", fn.loc(c), fn.fq, short(c, 60), "the text is written as returned")
     if n == 0:
         raise AnalysisError("R20.8: no statement writing the result of format_code found")
+
+
+# ------------------------------------------------------------------------------------------------ R20.12
+def _r20_12(prog: Program, res: Result) -> None:
+    """A text that is taken apart into lines WITHOUT their line breaks and put together again with a literal "\\n" has new line
+    ends everywhere: in a file with \\r\\n every line is rewritten, the ones carrying `# pyrefact: ignore` included (and a
+    skip-free file changes although no rule touched those lines).  Instance: `"\\n".join(X)` where X is made of the lines of a text
+    stripped of their terminators (`.splitlines()`, `.rstrip("\\r\\n")` of kept-ends lines) in a function on the formatting path;
+    there is no discharging idiom: the line breaks have to travel with the lines."""
+    from ..defuse import bindings
+    n = 0
+    for fn in prog.funcs.values():
+        for j in walk_own(fn.node):
+            if not (isinstance(j, ast.Call) and isinstance(j.func, ast.Attribute) and j.func.attr == "join" and isinstance(j.func.value, ast.Constant)
+                    and j.func.value.value in ("\n", "\r\n") and j.args):
+                continue
+            a = j.args[0]
+            texts = [norm(a)] + [norm(v) for x in ast.walk(a) if isinstance(x, ast.Name) for _s, v in bindings(fn).get(x.id, []) if v is not None]
+            from_lines = any(("splitlines()" in t) or ("split_lines(" in t and "rstrip(" in t) or (".split('\\n')" in t) for t in texts)
+            returned = any(isinstance(r, ast.Return) and r.value is not None for r in walk_own(fn.node))
+            if not (from_lines and returned):
+                continue
+            n += 1
+            res.bad("R20.12", fn.loc(j), fn.fq, f"{short(j, 60)} # lines put together with a line break of the rule's choosing",
+                    "the lines lost their own line breaks and get `\\n`: every line of a \\r\\n file is rewritten when this function changes anything - annotated lines "
+                    "(`# pyrefact: ignore`) are not carried over verbatim")
+    if n == 0:
+        res.ok("R20.12", "pyrefact/", "package", "texts rebuilt from terminator-less lines", "none", trivial=True)
 
 
 def _mandatory_factors(pattern: str) -> List[str]:
@@ -960,6 +989,8 @@ def _whitespace_only(prog, fn, pa, node, bounds: set) -> bool:
 from ..selftest import Variant  # noqa: E402
 
 VARIANTS = [
+    Variant("lines-joined-with-a-line-break-of-their-own-choosing", "FIRE", "fixes", "    lines = list(core.split_lines(source))\n", "    lines = [line.rstrip(\"\\r\\n\") for line in core.split_lines(source)]\n", "R20.12",
+            extra=[("fixes", "    new_source = \"\".join(lines)\n", "    new_source = \"\\n\".join(lines) + \"\\n\"\n")]),
     Variant("direct-editor-claims-its-rewrites-are-scheduled", "FIRE", "processing", "        new_source = _do_rewrite(new_source, rewrite)\n", "        new_source = _do_rewrite(new_source, rewrite, scheduled=True)\n", "R20.3"),
     Variant("fast-path-tests-one-spelling-of-the-comment", "FIRE", "core", '    pattern = re.compile(r"#\\s*pyrefact\\s*:\\s*(skip_file|ignore)")\n', '    if "# pyrefact:" not in source:\n        return False\n' + '    pattern = re.compile(r"#\\s*pyrefact\\s*:\\s*(skip_file|ignore)")\n', "R20.9"),
     Variant("fast-path-tests-a-word-every-comment-contains", "SILENT", "core", '    pattern = re.compile(r"#\\s*pyrefact\\s*:\\s*(skip_file|ignore)")\n', '    if "pyrefact" not in source:\n        return False\n' + '    pattern = re.compile(r"#\\s*pyrefact\\s*:\\s*(skip_file|ignore)")\n'),
